@@ -45,6 +45,7 @@ class Res:
         self.samples = []
         self.extra = Counter()  # free-form counters (branch hits, ...)
         self.caps = []
+        self.lines = set()  # (y0 file, line) executed while exploring
         self.fkeys = {}  # input identity -> (clause, class) of every violation that carries one
         self.keyset = set()  # 64-bit hashes of canonical states, for a global distinct count across shards
         self.digests = {}  # name -> hex digest; must coincide across PYTHONHASHSEED runs
@@ -76,6 +77,7 @@ class Res:
         self.extra.update(other.extra)
         self.caps.extend(other.caps)
         self.keyset |= other.keyset
+        self.lines |= getattr(other, "lines", set())
         for k, v in other.fkeys.items():
             if k in self.fkeys:
                 # counted twice (two shards / hash seeds reported the same input): undo the double count
@@ -144,7 +146,49 @@ def _work(args):
     except Exception:  # a harness crash is never silently a pass
         res = Res()
         res.violation("harness", {"shard": repr(shard)}, traceback.format_exc())
+    res.lines = set(COVERED)
     return res
+
+
+COVERED = set()  # (file, line) of y0 source lines executed in this process (filled by sys.monitoring)
+
+
+def _start_line_coverage():
+    """Record which lines of /repo/src/y0 are executed (each location reports once, then disables itself)."""
+    mon = getattr(sys, "monitoring", None)
+    if mon is None:
+        return
+    tool = mon.COVERAGE_ID
+    try:
+        mon.use_tool_id(tool, "vcheck")
+    except ValueError:
+        return  # already in use in this process
+    root = os.path.join(os.sep, "repo", "src", "y0") + os.sep
+
+    def on_line(code, line):
+        f = code.co_filename
+        if f.startswith(root):
+            COVERED.add((f[len(root) :], line))
+        return mon.DISABLE
+
+    mon.register_callback(tool, mon.events.LINE, on_line)
+    mon.set_events(tool, mon.events.LINE)
+
+
+def executable_lines(relpath):
+    """Line numbers that carry code in a y0 source file (from the compiled code objects)."""
+    path = os.path.join(os.sep, "repo", "src", "y0", relpath)
+    try:
+        code = compile(open(path).read(), path, "exec")
+    except Exception:  # noqa
+        return set()
+    out = set()
+    stack = [code]
+    while stack:
+        c = stack.pop()
+        out.update(line for _, _, line in c.co_lines() if line)
+        stack.extend(k for k in c.co_consts if hasattr(k, "co_lines"))
+    return out
 
 
 def _init_worker():
@@ -153,6 +197,7 @@ def _init_worker():
 
     warnings.filterwarnings("ignore")
     logging.disable(logging.ERROR)
+    _start_line_coverage()
 
 
 def explore(prop_id, tier, seed, child=False):
@@ -323,6 +368,22 @@ def main(argv=None):
             n_unknown += c
 
     desc = mod.describe(tier)
+    # line coverage of the anchored y0 files (evidence that the exploration is not vacuous)
+    line_cov = {}
+    anchors = getattr(mod, "ANCHOR_FILES", None)
+    if anchors is None:
+        try:
+            anchors = next(
+                json.loads(l)["anchors"]["files"] for l in open(os.path.join(ROOT, "properties.jsonl")) if json.loads(l)["id"] == prop_id
+            )
+            anchors = [a[len("src/y0/") :] for a in anchors if a.startswith("src/y0/")]
+        except Exception:  # noqa
+            anchors = []
+    for rel in anchors:
+        ex = executable_lines(rel)
+        hit = {ln for f, ln in total.lines if f == rel}
+        if ex:
+            line_cov[rel] = {"executable_lines": len(ex), "lines_hit": len(hit & ex)}
     evidence = {
         "property_id": prop_id,
         "tier": tier,
@@ -341,6 +402,7 @@ def main(argv=None):
             "caps_hit": total.caps,
             "samples": total.samples[:MAX_SAMPLES],
             "known_findings_seen": {f"{c}:{f}": n for (c, f), n in sorted(known_seen.items())},
+            "anchored_file_line_coverage": line_cov,
         },
         "assumptions": desc.get("assumptions", []),
         "wall_s": round(wall, 2),
